@@ -136,6 +136,15 @@ def run(ctx):
         defs = [it for it in items if it[0] == "define"]
         rest = [it for it in items if it[0] != "define"]
         b.lines = relayout(rng, c.elab, defs, None) + relayout(rng, c.elab, rest, None)
+        if rng.random() < 0.3 and not c.faults:
+            # ... also when command-line overrides address keys that the text spells in another letter case
+            from .. import ovgen
+            specs = [s_ for s_ in ovgen.gen_overrides(rng, c.elab, [it for it in items if it[0] != "define"], rng.randint(1, 2),
+                                                       pbadval=0.0, pmissing=0.0, pweird=0.0)
+                     if "=" in s_ and "" not in s_.split("=", 1)[0].split("/") and s_.split("=", 1)[1] == s_.split("=", 1)[1].strip()]
+            a.overrides = b.overrides = tuple(specs)
+            if specs:
+                ctx.count("with-overrides")
         A.append(a)
         B.append(b)
     cfgstream.evaluate(ctx, A)
